@@ -317,6 +317,23 @@ func workloads(threeWay bool) []workload {
 			ws = append(ws, w)
 		}
 	}
+	// W24 / W25: the followers collection written under the actor's lock (the
+	// auto-accepted Follow) and, as a whole object, under its own (a Like /
+	// an Announce of the collection itself: the default effect reads the
+	// object, adds likes / shares and writes all of it back)
+	for wi, typ := range []string{"Like", "Announce"} {
+		sc := inboxScenario(nil, func(sc *sim.Scenario) {
+			sc.Cfg.OnFollow = 1
+			sc.Store[alice()+"/followers"] = M{"@context": AS, "type": "Collection", "id": alice() + "/followers", "items": A{R2 + "/users/old"}}
+		})
+		sc.Requests = nil
+		w := workload{Name: fmt.Sprintf("W%d.follow-vs-%s-of-followers", 24+wi, strings.ToLower(typ)), Sc: sc, Cols: []string{"col:" + alice() + "/followers", "inbox:" + aliceIn()}, Adds: nil}
+		sc.Requests = append(sc.Requests, sim.PostInboxReq(aliceIn(), withCtx(M{"type": "Follow", "id": fmt.Sprintf("%s/act/w%d-follow", R1, 24+wi), "actor": carol(), "object": alice()})))
+		sc.Requests = append(sc.Requests, sim.PostInboxReq(aliceIn(), withCtx(M{"type": typ, "id": fmt.Sprintf("%s/act/w%d-%s", R1, 24+wi, strings.ToLower(typ)), "actor": dave(), "object": alice() + "/followers"})))
+		if !threeWay {
+			ws = append(ws, w)
+		}
+	}
 	// W20 two requests naming the same two owned ids in opposite order
 	// outside inbox forwarding: every per-id lock must be released before
 	// the next id is taken
@@ -970,7 +987,7 @@ func init() {
 			// W17-W19: the lost update between the two lock ids is already
 			// established by the scheduler (known finding); random threads
 			// would only hit it now and then
-			if !have[w.Name] && !strings.HasPrefix(w.Name, "W17.") && !strings.HasPrefix(w.Name, "W18.") && !strings.HasPrefix(w.Name, "W19.") {
+			if !have[w.Name] && !strings.HasPrefix(w.Name, "W17.") && !strings.HasPrefix(w.Name, "W18.") && !strings.HasPrefix(w.Name, "W19.") && !strings.HasPrefix(w.Name, "W24.") && !strings.HasPrefix(w.Name, "W25.") {
 				all = append(all, w)
 			}
 		}
